@@ -209,6 +209,9 @@ def fail (a : Acc) (why : String) : Acc :=
 
 def acceptEv (n totalIn totalOut : Nat) (ultra : Bool) (a : Acc) (e : Ev) : Acc :=
   if a.err.isSome then a else
+  -- `S` (xsignal inside sched_unlock, same locked region as the `U` that follows): no
+  -- effect on the projection; checked by the refined acceptor (ProjW.lean)
+  if e.kind == "S" then { a with line := a.line + 1 } else
   let a := { a with line := a.line + 1 }
   let a := if snapOk n totalIn totalOut e.p then a else fail a "snapshot-bounds"
   let a := if decide (e.p.unord > unordCap n totalOut) then { a with overcap := a.overcap + 1 } else a
